@@ -201,6 +201,15 @@ theorem copyFrom_d (s : CallSt) (prev : Option Vtx) (v : Vtx) (h : DInv c D tid 
     exact h.store _ _ ha
   · exact h
 
+theorem valCopy_d (s : CallSt) (prev : Option Vtx) (v : Vtx) (h : DInv c D tid F s) :
+    DInv c D tid F (valCopy c s prev v) := by
+  rcases valCopy_cases c s prev v with h1 | ⟨n, t, st, x, _, _, hg, h1⟩ <;> rw [h1]
+  · exact copyFrom_d s prev v h
+  · apply h.set
+    intro a ha
+    cases ha
+    exact h.store _ _ hg
+
 theorem argStore_d (s : CallSt) (t : Nat) (v : Vtx) (h : DInv c D tid F s) :
     DInv c D tid F (argStore c s t v) := by
   unfold argStore
@@ -228,7 +237,7 @@ theorem walkStep_d (H : Hyp c D tid F)
       exact hd
     | value n t u =>
       rw [walkStep_value c rec herr]
-      have h1 := copyFrom_d w.s w.prev (.value n t u) hd.1
+      have h1 := valCopy_d w.s w.prev (.value n t u) hd.1
       refine ⟨?_, ?_⟩
       · apply h1.setLast
         intro a ha
@@ -237,7 +246,7 @@ theorem walkStep_d (H : Hyp c D tid F)
         · exact hd.1.store _ _ ha
       · intro x hx
         dsimp only at hx
-        cases hget : (copyFrom w.s w.prev (.value n t u)).get (.value n t u) with
+        cases hget : (valCopy c w.s w.prev (.value n t u)).get (.value n t u) with
         | some y =>
           rw [hget] at hx
           simp only [Option.some_or, Option.some.injEq] at hx
